@@ -23,6 +23,7 @@ import LogosModel.Calls
 import LogosModel.IgnoreGroup
 import LogosModel.Assemble
 import LogosModel.LogosItems
+import LogosModel.Generics
 import LogosModel.Look.Utf8ClosedC
 import Std.Data.HashMap
 import LogosModel.Source
@@ -619,6 +620,26 @@ def logosItemsAnswer (args : List String) : String :=
     | [] => "BADQ"
   | _ => "BADQ"
 
+/-! ## the generics of the generated impl (Generics.lean) -/
+
+/-- "GENERICS <lifetime params|-> <type params|-> {L- | L<name> | T:<param>:<lifetimes separated by .>}" -/
+def genericsAnswer (args : List String) : String :=
+  match args with
+  | lts :: tys :: items =>
+    let names := fun (s : String) => if s == "-" then [] else s.splitOn ","
+    let its : List TypeItems.Item := items.filterMap fun it =>
+      if it == "L-" then some (.lifetime none)
+      else if it.startsWith "L" then some (.lifetime (some (it.drop 1).toString))
+      else match it.splitOn ":" with
+        | ["T", p, ls] => some (.type p (if ls == "" then [] else ls.splitOn "."))
+        | _ => none
+    let s := TypeItems.runFixed (TypeItems.init (names lts) (names tys)) its
+    let ga := (TypeItems.genericArgs s).map fun g => match g with
+      | .lt n => "L" ++ n
+      | .ty t => "T" ++ ".".intercalate t
+    s!"src={TypeItems.sourceLt s} bounds={",".intercalate (TypeItems.bounds s)} generics={",".intercalate ga} errs={s.errs} herrs={TypeItems.headerErrs s}"
+  | _ => "BADQ"
+
 /-! ## C15 / C05: library-level models -/
 
 def bumpAnswer (mode hexsrc st en n : String) : String :=
@@ -837,6 +858,9 @@ partial def run (h : IO.FS.Stream) (out : IO.FS.Stream) (cur : Case) (tbl : Std.
     run h out cur tbl
   | "Q" :: "IGNOREGRP" :: toks =>
     out.putStrLn s!"{cur.name} IGNOREGRP {" ".intercalate toks} : {ignoreGrpAnswer toks}"
+    run h out cur tbl
+  | "Q" :: "GENERICS" :: args =>
+    out.putStrLn s!"{cur.name} GENERICS {" ".intercalate args} : {genericsAnswer args}"
     run h out cur tbl
   | "Q" :: "LOGOSITEMS" :: args =>
     out.putStrLn s!"{cur.name} LOGOSITEMS {" ".intercalate args} : {logosItemsAnswer args}"
